@@ -44,10 +44,35 @@ def seeds():
     return '\n'.join(rows)
 
 
+def status():
+    m = json.load(open(os.path.join(V, 'MANIFEST.json')))
+    kf = json.load(open(os.path.join(V, 'known-findings.json')))['findings']
+    claimed = {c['property_id']: c for c in m['checks']}
+    na = {x['property_id']: x['reason'] for x in m['not_applicable']}
+    rows = ['| property | registered | theorems (obligations) | axioms | repaired / open findings | level |', '|---|---|---|---|---|---|']
+    for l in open(os.path.join(V, 'properties.jsonl')):
+        pid = json.loads(l)['id']
+        fx = sum(1 for e in kf if e['property'] == pid and e['status'] == 'fixed')
+        op = sum(1 for e in kf if e['property'] == pid and e['status'] != 'fixed')
+        ef = os.path.join(V, 'evidence', pid + '.json')
+        ob = ax = ''
+        if os.path.exists(ef):
+            cov = json.load(open(ef)).get('coverage', {})
+            ob = f"{cov.get('discharged')}/{cov.get('obligations')}"
+            ax = ', '.join(cov.get('axioms_used', []) or [])
+        if pid in claimed:
+            c = claimed[pid]
+            partial = 'partial' if 'artial' in c['level_claimed']['text'] else 'full statement'
+            rows.append(f"| {pid} | yes | {ob} | {esc(ax)} | {fx} / {op} | proof ({partial}; see MANIFEST level text) |")
+        else:
+            rows.append(f"| {pid} | not yet | {ob} | {esc(ax)} | {fx} / {op} | {esc(na.get(pid, ''))[:160]} |")
+    return '\n'.join(rows)
+
+
 def main():
     p = os.path.join(V, 'DESIGN.md')
     s = open(p).read()
-    for tag, body in (('LEDGER', ledger()), ('SEEDS', seeds())):
+    for tag, body in (('LEDGER', ledger()), ('SEEDS', seeds()), ('STATUS', status())):
         a, b = f'<!-- {tag}:BEGIN -->', f'<!-- {tag}:END -->'
         if a in s and b in s:
             s = s[:s.index(a) + len(a)] + '\n' + body + '\n' + s[s.index(b):]
